@@ -89,6 +89,56 @@ def matlab(rep, base):
                               % sorted(set(a) ^ set(b))[:4], dict(kind='c16-matlab', endings=[e1, e2]))
 
 
+BLOCKS = ["namespace pre {\ntypedef geo::Box<int> BoxI;\n}",
+          "namespace geo {\ntemplate<T>\nclass Box {\n  Box();\n  T get() const;\n};\n}",
+          "namespace app {\ntypedef geo::Box<double> BoxD;\nclass User {\n  User();\n  void take(const geo::BoxD& b, double s = 1.5);\n};\n}",
+          "virtual class C : app::User {\n  C(double d);\n};",
+          "app::User make(const C& c);"]
+
+
+def matlab_splits(rep, base):
+    """declarations that refer to one another across files: every split of the block sequence into consecutive files equals the single file"""
+    import itertools
+    from props.matlab_e2e import make_wrapper
+    d0 = tempfile.mkdtemp(prefix='c16s_', dir=base)
+    one = os.path.join(d0, 'one.i')
+    with open(one, 'w') as f:
+        f.write('\n'.join(BLOCKS))
+    make_wrapper('m').wrap([one], os.path.join(d0, 'single'))
+    ref = tree(os.path.join(d0, 'single'))
+    for cuts in itertools.product((0, 1), repeat=len(BLOCKS) - 1):
+        if not any(cuts):
+            continue
+        groups, cur = [], [BLOCKS[0]]
+        for c, b in zip(cuts, BLOCKS[1:]):
+            if c:
+                groups.append(cur)
+                cur = [b]
+            else:
+                cur.append(b)
+        groups.append(cur)
+        for ending in ('\n', ''):
+            d = tempfile.mkdtemp(prefix='c16s_', dir=base)
+            paths = []
+            for i, g in enumerate(groups):
+                p = os.path.join(d, 'p%d.i' % i)
+                with open(p, 'w') as f:
+                    f.write('\n'.join(g) + ending)
+                paths.append(p)
+            rep.bounded['evaluations'] += 1
+            rep.bounded['distinct'].add(('matlab-split', cuts, ending))
+            try:
+                make_wrapper('m').wrap(paths, os.path.join(d, 'multi'))
+            except Exception as e:
+                rep.violation('matlab-multi:rejected', 'a list of files is rejected (%s) although their declarations in sequence are fine' % str(e)[:100],
+                              dict(kind='c16-matlab-split', cuts=list(cuts), ending=ending))
+                continue
+            a = tree(os.path.join(d, 'multi'))
+            if a != ref:
+                rep.violation('matlab-multi:differs', 'wrapping the file list differs from wrapping one file with the declarations in sequence: %s'
+                              % sorted(k for k in set(a) | set(ref) if a.get(k) != ref.get(k))[:4], dict(kind='c16-matlab-split', cuts=list(cuts), ending=ending))
+
+
 def tree(d):
     out = {}
     for root, _, files in os.walk(d):
@@ -167,6 +217,7 @@ def run(rep, args):
     try:
         pybind(rep, base)
         matlab(rep, base)
+        matlab_splits(rep, base)
         scripts(rep, base)
     finally:
         shutil.rmtree(base, ignore_errors=True)
